@@ -3,7 +3,8 @@ CONSTANTS Setters = {"S1", "S2"}
  MaxH = 3
  MaxG = 3
  UseCAS = TRUE
+ WithInit = FALSE
 SPECIFICATION Spec
-INVARIANTS OkIsStored ElapsedIsRight NoLostWakeup CancelReleases HeightIsStored
+INVARIANTS OkWasAvailable OkIsStored ElapsedIsRight NoLostWakeup CancelReleases HeightIsStored
 PROPERTIES HeightMonotone
 CHECK_DEADLOCK FALSE
